@@ -506,6 +506,18 @@ def run_cliflags(facts, cg):
                                          'what': 'the pinned header checksum handed to the clone is %s: a --verify-header value can end up as "no pin" and the '
                                                  'check it asks for is skipped without a word' % ('not the parsed --verify-header argument' if not from_arg else
                                                                                                    'passed through ' + ', '.join(lossy))})
+    # ... and stay what the command line said: no function of the tool stores to these flags after the options were built
+    # (a "resume in place after a failure" that sets seed_output lifts the refusal to touch an existing output)
+    for b in facts.bodies.values():
+        if b.crate != 'bita' or b.generated:
+            continue
+        for bi in b.live:
+            for st in b.blocks[bi]['stmts']:
+                if st['k'] == 'assign' and st['pl']['p'] and st['pl']['p'][-1]['k'] == 'field' and st['pl']['p'][-1].get('n') in CLI_FLAGS and \
+                        (st['pl']['p'][-1].get('adt') or '').startswith(('bita::clone_cmd::Options', 'bita::compress_cmd::Options')):
+                    findings.append({'rule': 'R-CLIFLAGS', 'key': 'R-CLIFLAGS|%s|flag-overwritten:%s' % (b.q, st['pl']['p'][-1]['n']), 'function': b.q,
+                                     'what': 'option %s is stored to at %s after the command line was parsed: what decides whether an existing output may be touched is no '
+                                             'longer what the user asked for' % (st['pl']['p'][-1]['n'], st['loc'])})
     if n_pin < 1:
         findings.append({'rule': 'R-CLIFLAGS', 'key': 'R-CLIFLAGS|-|floor-pin', 'function': '-', 'what': 'the header_checksum option of clone was not found in the argument parser (cannot decide)'})
     if n < 3:
